@@ -14,7 +14,7 @@
 (*           polarity of the bit is canonicalised away; chain order kept   *)
 (* Function ids: 0 NULL, 1 k%m, 2 (k\div 2)%m, 3 cstl_hash_mul (tabulated  *)
 (* by the driver for the scope, not logged), 4-6 bad functions returning   *)
-(* m, m+1, SIZE_MAX (-1 here) for BadKey.                                  *)
+(* m, 2^32 + k%m, SIZE_MAX (both -1 here) for BadKey.                                  *)
 (*                                                                         *)
 (* Every operation threads a "machine" m = [s, ev, ab]: state, the events  *)
 (* so far (hash calls <<"h",f,k,m,r>>, visits <<"v",e>>, clear callbacks   *)
@@ -37,7 +37,7 @@ H(f, k, m) == CASE f = 1 -> k % m
                 [] f = 2 -> (k \div 2) % m
                 [] f = 3 -> MulTab[k + 1][m]
                 [] f = 4 -> IF k = BadKey THEN m ELSE k % m
-                [] f = 5 -> IF k = BadKey THEN m + 1 ELSE k % m
+                [] f = 5 -> IF k = BadKey THEN Big ELSE k % m       \* 2^32 + k % m in the driver: in range only if truncated to 32 bits
                 [] f = 6 -> IF k = BadKey THEN Big ELSE k % m
 InRange(r, m) == r >= 0 /\ r < m
 
